@@ -1,7 +1,7 @@
 (* C14 -- facts about the concrete tables of Gen/GenCodegen.v: witnesses for the statement that is still false of the
    formatter (floats), and the former counterexamples (repaired in /repo) as regression examples. *)
 From Coq Require Import List NArith ZArith Bool Arith Lia.
-From PV Require Import Lib.ListX Model.FmtLit Model.FmtPratt Model.Fmt Model.FmtInst Proofs.FmtPrattProofs Proofs.FmtProofs Proofs.FmtLitProofs.
+From PV Require Import Lib.ListX Model.FmtLit Model.FmtPratt Model.Fmt Model.FmtStmt Model.FmtInst Proofs.FmtPrattProofs Proofs.FmtProofs Proofs.FmtStmtProofs Proofs.FmtLitProofs.
 Import ListNotations.
 Local Open Scope N_scope.
 
@@ -61,4 +61,40 @@ Lemma ascii_classes_ok :
 Proof.
   repeat split; try reflexivity. intros c. unfold ascii_alpha_f, ascii_alnum_f, in_ranges, letters, alnum_ascii.
   cbn [existsb fst snd]. rewrite !orb_false_r. intro H. apply orb_true_iff in H as [H|H]; rewrite H; rewrite ?orb_true_r; reflexivity.
+Qed.
+
+(* ---- whole programs: the two classes on which the formatter changes the program *)
+Definition call1 (f a : N) : expr := ECall (idn f) [idn a].
+(* `f a` / (doc comment) / `g b`: two main pipelines; printed without the doc comment they are one pipeline *)
+Definition split_witness : list stmt := [SMain [] (call1 102 97); SMain [] (call1 103 98)].
+(* `x = (f a | g b)` as a statement: the alias is dropped *)
+Definition alias_pipeline_witness : list stmt := [SMain [] (EAlias [120] (EGroup GPipe [call1 102 97; call1 103 98]))].
+(* module m { let a = 1 / module n { let b / f t | s c | into z } } / @(f x) @{a = b} f m / import q = a.`b c` / let g = func x -> x / x = f a *)
+Definition program_witness : list stmt :=
+  [SModule [] [109] [SLet [] [97] (Some (EAtom (ALit (LInt 1)))); SModule [] [110] [SLet [] [98] None; SInto [] (EGroup GPipe [call1 102 116; call1 115 99]) [122]]];
+   SMain [ECall (idn 102) [idn 120]; EGroup GTup [EAlias [97] (idn 98)]] (call1 102 109);
+   SImport [] (Some [113]) [[97]; [98; 32; 99]];
+   SLet [] [103] (Some (EFunc [[120]] [] (idn 120)));
+   SMain [] (EAlias [120] (call1 102 97))].
+
+Lemma prog_never (ss ss' : list stmt) f0 :
+  parse_prog_prql f0 (fmt_prog_toks ss) = Some ss' -> ss' <> ss -> forall f, parse_prog_prql f (fmt_prog_toks ss) <> Some ss.
+Proof.
+  intros H0 Hne f Hf. unfold parse_prog_prql in *.
+  pose proof (parse_prog_mono P_prql f (f + f0) _ _ ltac:(lia) Hf) as H1.
+  pose proof (parse_prog_mono P_prql f0 (f + f0) _ _ ltac:(lia) H0) as H2.
+  rewrite H1 in H2. injection H2 as <-. apply Hne. reflexivity.
+Qed.
+
+Lemma split_refuted : wf_prog split_witness = true /\ ops_ok_prog nbin nun split_witness = true /\
+  forall f, parse_prog_prql f (fmt_prog_toks split_witness) <> Some split_witness.
+Proof.
+  split; [reflexivity|]. split; [vm_compute; reflexivity|].
+  apply (prog_never _ [SMain [] (EGroup GPipe [call1 102 97; call1 103 98])] 40); [vm_compute; reflexivity | discriminate].
+Qed.
+Lemma alias_pipeline_refuted : wf_prog alias_pipeline_witness = true /\ ops_ok_prog nbin nun alias_pipeline_witness = true /\
+  forall f, parse_prog_prql f (fmt_prog_toks alias_pipeline_witness) <> Some alias_pipeline_witness.
+Proof.
+  split; [reflexivity|]. split; [vm_compute; reflexivity|].
+  apply (prog_never _ [SMain [] (EGroup GPipe [call1 102 97; call1 103 98])] 40); [vm_compute; reflexivity | discriminate].
 Qed.
